@@ -79,7 +79,7 @@ class RandomProxy:
         return getattr(self._real, name)
 
 
-def run_generator(argv=None, call=None, force_random=None):
+def run_generator(argv=None, call=None, force_random=None, pre_files=None):
     """Run roberta_generator.main() with `argv` (or `call(rg)`) in a scratch cwd containing an
     empty inputs/ directory.  Returns dict(outcome, files {name: text}, log [effects])."""
     import builtins
@@ -88,6 +88,9 @@ def run_generator(argv=None, call=None, force_random=None):
     rg = repo("roberta_generator")
     d = tempfile.mkdtemp(prefix="crv_")
     os.mkdir(os.path.join(d, "inputs"))
+    for name, content in (pre_files or {}).items():      # files left by an earlier run in this directory
+        with open(os.path.join(d, name), "w") as f:
+            f.write(content)
     log = []
     old_cwd, old_argv = os.getcwd(), sys.argv
 
